@@ -1,5 +1,5 @@
 """C12 check: see xoverif.alloc"""
-from . import alloc, common
+from . import alloc, common, tlc_replay
 
 PID = "C12"
 WANT = "C12"
@@ -7,26 +7,33 @@ WANT = "C12"
 
 def describe(tier):
     return dict(
-        rule="BFS over all allocate/free/grow histories on the real XBuffer (state = history, rebuilt by replay; "
+        rule="(1) TLA+ specification tla/XAlloc.tla model checked by TLC to fixpoint (invariants NoOverlap/InBounds/Aligned/Partition/Accounting on the spec), complete "
+        "labelled state graph dumped and EVERY edge replayed on the real XBuffer (offset, capacity, free set, free total compared with the successor node); "
+        "(2) BFS over all allocate/free/grow histories on the real XBuffer (state = history, rebuilt by replay; "
         "deduplicated on a generic snapshot of the allocator's attributes + live regions); every transition judged "
         "against the byte-map specification; a state is non-trivial/distinct if its canonical form is new",
         bounds=dict(sizes=alloc.SIZES, grows=alloc.GROWS, max_live=alloc.MAXLIVE, capacities=alloc.CAPS, alignments=alloc.ALS,
                     grow_steps=[str(g) for g in alloc.GSS], plan={"quick": "depth 4 on 240 configurations (+1 allocate-only look-ahead layer), depth 5 on 8", "thorough": "depth 5 on 120 BufferNumpy configurations, depth 5/6 on a 12-configuration slice of both kinds"}[tier]),
         assumptions=["regions are freed whole, exactly once", "stored bytes never influence allocator control flow (tags excluded from the state key)",
                      "growth amount is the implementation's choice (only 'never shrinks' and 'only when nothing fits' are demanded)"],
-        must_fire=["alloc", "free", "grow"],
+        must_fire=["alloc", "free", "grow", "tla-alloc", "tla-free", "tla-grow"],
     )
 
 
 def shards(tier, seed):
     pl = alloc.plan(tier)
     pl = pl[seed % len(pl):] + pl[:seed % len(pl)]
-    return [("cfg", cfg, depth) for cfg, depth in pl] + [("many",)]
+    return [("cfg", cfg, depth) for cfg, depth in pl] + [("many",)] + [("tla", c) for c in tlc_replay.configs(tier)]
 
 
 def run_shard(shard, tier, seed):
     res = common.ShardResult()
-    if shard[0] == "many":
+    if shard[0] == "tla":
+        for oracle, failure, detail, case in tlc_replay.replay_graph(shard[1], res, WANT):
+            f = dict(kind="BufferNumpy", cap0=shard[1]["InitCap"], alignment=shard[1]["Align"], grow_step=shard[1]["GrowStep"] or None, regime="tla-graph")
+            res.violations.append(common.violation(oracle, failure, f, case, detail))
+        res.nontrivial += res.states
+    elif shard[0] == "many":
         alloc.regime_many_growths(res, WANT, seed)
     else:
         alloc.explore(shard[1], shard[2], seed, res, WANT)
@@ -34,4 +41,6 @@ def run_shard(shard, tier, seed):
 
 
 def replay(case):
+    if "tla_config" in case:
+        return tlc_replay.replay_case(case)
     return alloc.replay_case(case, WANT)
